@@ -287,6 +287,32 @@ def run(ctx):
                         "len(), no indexing)" % (kind, why),
                     )
     led.count("lazy_iterator_sites", n_lazy)
+    # `is` / `is not` between values: whether two equal strings or numbers are one object depends on
+    # interning and caches, which differ between interpreter versions and code paths
+    n_is = 0
+    for name, m in sorted(ctx.repo.modules.items()):
+        for n in ast.walk(m.tree):
+            if not isinstance(n, ast.Compare) or not any(isinstance(op, (ast.Is, ast.IsNot)) for op in n.ops):
+                continue
+            n_is += 1
+            operands = [n.left] + list(n.comparators)
+            for x in operands:
+                try:
+                    val = ctx.ce.eval(m, x, "C20.identity")
+                except AnalysisError:
+                    continue
+                if val is None or isinstance(val, bool) or val is Ellipsis:
+                    continue
+                if isinstance(val, (str, int, float, tuple)) or type(val).__name__ in ("Dec", "Flt", "Num"):
+                    led.violation(
+                        "C20.identity",
+                        "%s::%s" % (name, short(n)),
+                        m.where(n),
+                        "identity test against the value %r: equal strings / numbers are the same object only where the interpreter "
+                        "happens to intern or cache them (differs between versions and between a literal and a parsed value)" % (val if not hasattr(val, "q") else str(val),),
+                    )
+                    break
+    led.count("identity_tests", n_is)
     # regular expressions: Unicode-dependent matching differs between 2.7 and 3.x
     n_rx = 0
     for m, n, pat, flags in PC.regex_calls(ctx):
